@@ -36,13 +36,16 @@ Definition has_type (t : gty) (v : gval) : bool :=
   | _ => match dyn_type v with Some u => gty_eqb t u | None => false end
   end.
 
+(** the scalar kinds the harness builds: bool, int..int64, uint..uint64 (1..11), float32, float64 (13, 14) *)
+Definition scalar_kind (k : Z) : bool := ((1 <=? k) && (k <=? 11)) || (k =? 13) || (k =? 14).
+
 (** well-formed value trees: the elements of slices and arrays fit the element type, a nil slice is empty *)
 Fixpoint wf (v : gval) : bool :=
   match v with
   | GSlice t fl el => forallb (fun e => has_type t e && wf e) el && (negb (Z.testbit fl 0) || match el with [] => true | _ => false end)
   | GArray t el => forallb (fun e => has_type t e && wf e) el
   | GPtr v => wf v && match dyn_type v with Some _ => true | None => false end
-  | GScalar k _ => (1 <=? k) && (k <=? 11)
+  | GScalar k _ => scalar_kind k
   | GOther tag => (tag =? K_Chan) || (tag =? K_Func) || (tag =? K_Map) || (tag =? K_Struct)
   | _ => true
   end.
